@@ -757,6 +757,14 @@ class VHDXInspector(FileInspector):
                     '<QII', entry[16:])
                 self._trace('Meta entry %i specifies offset: %x',
                             i, meta_offset)
+                # The metadata region can only follow the region table that
+                # points to it. Anything else is not a valid image, and is
+                # data we may have already streamed past.
+                header = self.region('header')
+                if meta_offset < header.offset + header.length:
+                    raise ImageFormatError(
+                        'Metadata region offset %x is inside the header' % (
+                            meta_offset))
                 # NOTE(danms): The meta_len in the region descriptor is the
                 # entire size of the metadata table and data. This can be
                 # very large, so we should only capture the size required
@@ -804,6 +812,12 @@ class VHDXInspector(FileInspector):
                 item_length = min(item_length,
                                   self.VHDX_METADATA_TABLE_MAX_SIZE)
                 self.region('metadata').length = len(meta_buffer)
+                if item_offset < entries_size:
+                    # Metadata items live after the table that describes
+                    # them; we may have already streamed past anything else.
+                    raise ImageFormatError(
+                        'Metadata item offset %x is inside the metadata '
+                        'table' % item_offset)
                 self._trace('Found entry at offset %x', item_offset)
                 # Metadata item offset is from the beginning of the metadata
                 # region, not the file.
